@@ -1,5 +1,5 @@
 SPECIFICATION Spec
-CONSTANTS Mode = "reverse"  Variant = "rev_nofactor"  Family = "list"  List = { 1090312 }  Steps = 3
+CONSTANTS Mode = "reverse"  Variant = "rev_nofactor"  Family = "list"  List = { 1090312 }  Steps = 3  PairMod = 7
           Extra = { 1100 }
 INVARIANT TypeOK
 INVARIANT ReverseExact
